@@ -34,6 +34,8 @@ def run(tier, seed, res, lean):
             res.violations.append(Violation('c13-detect', '_detect_impure differs from reachability of an ImpureEdge', {'suite': 'S-IMPURE', **b}))
     if ebad and not res.violations:
         res.violations.append(Violation('c13-correspondence', '_detect_impure and CM.Model.Impure disagree', {'suite': 'S-IMPURE', **ebad[0]}, found_input=False))
+    for p in suite_impure.run_marked_then_wrapped(seed)[:2]:
+        res.violations.append(Violation('c13-marked-then-wrapped', p['msg'][:400], {'suite': 'S-IMPURE/wrapped', **p}))
     res.coverage.update({
         'evaluations': es['nodes'] + ps['stacks'], 'distinct_nontrivial': ps['stacks'], 'rule': RULE,
         'programs': es['graphs'] + ps['stacks'], 'disagreements_checked': len(ebad) + len(pbad),
